@@ -6,6 +6,25 @@ props = [json.loads(l) for l in open(os.path.join(here, "properties.jsonl"))]
 
 TECH = "contract-based deductive verification: "
 CHECKS = {
+ "C05": dict(engine="cvc",
+   text="qac_rotation/qac_apply and qabc_rotation/qabc_apply are executed symbolically from clang's AST of the generated kernel "
+        "source (the macro-expanded kernel_iq.c of the current tree) and every matrix entry is proved equal to the corresponding "
+        "entry of (Rz(phi)Ry(theta)Rz(psi)Rx(dphi)Ry(dtheta)Rz(dpsi))^T by a complete polynomial normal form modulo sin^2+cos^2=1; "
+        "|q| preservation, qab^2=qa^2+qb^2 and the detector/phi co-rotation lemma are proved over the contract.",
+   note="sin/cos uninterpreted with s^2+c^2=1 (angle addition formulas for the co-rotation lemma); doubles are reals; the Python "
+        "clauses (jitter centred on 0, orientation inactive for 1-D) are obligations of C10; kernel-level |cos dtheta| weight and "
+        "jitter defaults belong to the kernel contract (kernel_c, in progress); parity of the individual models is not covered",
+   technique=TECH + "clang JSON AST -> symbolic execution -> polynomial normal form / z3; witnesses replayed on the compiled generated source",
+   design="DESIGN.md 6 C05"),
+ "C06": dict(engine="cvc",
+   text="set_spin_weights and mag_sld (with clip/SET_VEC/ORTH_VEC/SCALAR_VEC inlined) are executed symbolically from clang's AST "
+        "of the generated magnetic kernel source and proved equal, for all inputs, to the documented channel weights "
+        "((1-i)(1-f), (1-i)f, i(1-f), if)/max(f,1-f) with clipping and to rho -/+ P.Mperp, e1.Mperp, -/+ e2.Mperp with "
+        "Mperp = M - qhat(qhat.M); {P,e1,e2} orthonormal and Mperp perpendicular to q are lemmas.",
+   note="doubles are reals; sqrt(x)^2=x; convert_magnetism (2-D numpy reshaping) is a bounded run-time contract; the per-q channel "
+        "loop, slot layout and kernel selection are obligations of the kernel contract (kernel_c, in progress) and C11",
+   technique=TECH + "clang JSON AST -> symbolic execution -> z3 nonlinear real arithmetic; witnesses replayed on the compiled generated source",
+   design="DESIGN.md 6 C06"),
  "C07": dict(engine="pyvc",
    text="ProductKernel.__init__/Iq and _intermediates are executed symbolically from the AST of the current tree for symbolic "
         "p_npars, s_npars, magnetic count, volfraction position, weight count and nq (flag combinations enumerated); the exact "
